@@ -117,6 +117,155 @@ def judge(recs, d, tag):
     return failed, res
 
 
+def _clauses(out):
+    failed = {}
+    for m in re.finditer(r'<<\s*"CLAUSE-FAILED",\s*"(\w+)",\s*(\d+)\s*>>', out):
+        failed.setdefault(int(m.group(2)), set()).add(m.group(1))
+    return failed
+
+
+def judge_roots(recs, d, tag):
+    """Trace_Roots.tla on findRoots_1d records, one TLC run per fine lattice"""
+    failed, results = {}, []
+    for N in sorted({r["NFine"] for r in recs}):
+        sub = [r for r in recs if r["NFine"] == N]
+        tf = os.path.join(d, "%s_roots%d.json" % (tag, N))
+        with open(tf, "w") as fh:
+            json.dump({"traces": sub}, fh)
+        res = tlc.run_tlc("Trace_Roots", "Trace_Roots%d.cfg" % N, workers=1, timeout=1800, env_extra={"TRACE_FILE": tf}, check=False)
+        want = sum(len(r["events"]) + 1 for r in sub)
+        if not res.ok or res.distinct != want:
+            raise MachineryError("Trace_Roots failed (violated=%s, %d states, expected %d)\n%s" % (res.violated, res.distinct, want, res.out[-2000:]))
+        failed.update(_clauses(res.out))
+        results.append(res)
+    return failed, results
+
+
+def judge_saddle(recs, d, tag):
+    tf = os.path.join(d, tag + "_saddle.json")
+    with open(tf, "w") as fh:
+        json.dump({"traces": recs}, fh)
+    res = tlc.run_tlc("Trace_Saddle", "Trace_Saddle.cfg", workers=1, timeout=1800, env_extra={"TRACE_FILE": tf}, check=False)
+    judged = {int(m.group(1)) for m in re.finditer(r'<<\s*"JUDGED",\s*(\d+)\s*>>', res.out)}
+    if not res.ok or judged != {r["id"] for r in recs}:
+        raise MachineryError("Trace_Saddle failed (violated=%s, %d of %d traces judged)\n%s" % (res.violated, len(judged), len(recs), res.out[-2000:]))
+    return _clauses(res.out), res
+
+
+def torpex_searches(v, tier, seed, d):
+    """the two searches the TORPEX case finds its X-point and strike points with (Saddle.tla, Roots.tla): beyond the tokamak path of the property"""
+    rng = random.Random(seed * 131 + 19)
+    for mod, cfg in (("Roots", "MC_Roots.cfg" if tier == "quick" else "MC_Roots_thorough.cfg"), ("MC_Saddle", "MC_Saddle.cfg" if tier == "quick" else "MC_Saddle_thorough.cfg")):
+        r0 = tlc.run_tlc(mod, cfg, timeout=3000, check=False)
+        v.add_tlc(r0)
+        if not r0.ok and r0.violated is None:
+            v.fail_machinery("TLC did not complete on %s: %s" % (mod, r0.out[-1500:]))
+        elif not r0.ok:
+            v.violation("C19 engine=mc module=%s violated=%s" % (mod, r0.violated), "%s.tla violates %s" % (mod, r0.violated), {"tlc_tail": r0.out[-2000:]})
+    # --- findRoots_1d
+    cases = []
+    combos = {8: [(1, 8), (1, 4), (2, 4), (2, 8), (4, 8)], 12: [(3, 6), (3, 12), (6, 12)]}
+    per = 600 if tier == "quick" else 6000
+    for N, cs in combos.items():
+        for _ in range(per):
+            sg = [rng.choice([-1, 1]) for _ in range(N + 1)]
+            if rng.random() < 0.2:
+                sg[rng.randrange(N + 1)] = 0
+            if rng.random() < 0.3:      # few sign changes: the doubling is exercised
+                k = rng.randrange(N + 1)
+                sg = [(-1 if i < k else 1) * (1 if sg[0] > 0 else -1) if x != 0 else 0 for i, x in enumerate(sg)]
+                for j in rng.sample(range(N), rng.choice([0, 1, 2])):
+                    sg[j] = -sg[j]
+            n, maxI = rng.choice(cs)
+            sc = rng.choice([1.0, 1e-6, 1e4])
+            cases.append({"id": len(cases) + 1, "NFine": N, "n": n, "maxI": maxI, "sg": sg, "mag": [rng.uniform(0.5, 2.0) * sc for _ in range(N + 1)]})
+    recs = run_driver("roots_run.py", cases, d, "roots", timeout=1800)
+    recs.sort(key=lambda r: r["id"])
+    failed, results = judge_roots(recs, d, "main")
+    for r in results:
+        v.add_tlc(r)
+    v.add_traces(len(recs))
+    outc = {}
+    for r in recs:
+        o = r["events"][-1]["outcome"]
+        outc[o] = outc.get(o, 0) + 1
+        v.add_eval(len(r["events"]))
+        for cl in sorted(failed.get(r["id"], ())):
+            v.violation("C19 engine=roots clause=%s n=%d maxI=%d" % (cl, r["n"], r["maxI"]),
+                        "findRoots_1d: clause %s fails for signs %s n=%d maxintervals=%d: %s" % (cl, r["sg"], r["n"], r["maxI"], r["events"]), {"case": r, "driver": "harness/drivers/roots_run.py"})
+    v.note("roots", {"calls": len(recs), "outcomes": outc})
+    if min(outc.get(k, 0) for k in ("ok", "no_roots", "not_implemented", "type_error")) == 0:
+        v.fail_machinery("findRoots_1d: an outcome class was never observed: %s" % outc)
+    clean = [r for r in recs if r["id"] not in failed]
+    okr = [r for r in clean if r["events"][-1]["outcome"] == "ok" and len(r["events"]) >= 3][0]
+    muts = []
+    a = copy.deepcopy(okr); a["id"] = 1; a["events"][-1]["roots"][0] += 2 * a["NFine"]; muts.append((a, "RootsSolveBrackets"))
+    b = copy.deepcopy(okr); b["id"] = 2; del b["events"][0]; muts.append((b, "ScanLevelIsSpec"))
+    c = copy.deepcopy([r for r in clean if r["events"][-1]["outcome"] == "no_roots"][0]); c["id"] = 3; c["events"][-1]["outcome"] = "ok"; muts.append((c, "OutcomeIsSpec"))
+    e = copy.deepcopy(okr); e["id"] = 4; e["events"].insert(-1, {"ev": "Scan", "level": 2 * e["events"][-2]["level"]}); muts.append((e, "NoScanAfterBrackets"))
+    mf, _ = judge_roots([m for m, _ in muts], d, "mut")
+    okm = sum(1 for m, cl in muts if cl in mf.get(m["id"], ()))
+    # --- findSaddlePoint
+    forms = [(a_, b_, c_, k, s_) for a_ in (1, 2) for b_ in (1, 2) for c_ in (-2, -1, 0, 1, 2) for k in (-1, 1) for s_ in (-1, 1)]
+    if tier != "quick":
+        forms = [(a_, b_, c_, k, s_) for a_ in (1, 2, 3) for b_ in (1, 2, 3) for c_ in (-3, -2, -1, 0, 1, 2, 3) for k in (-1, 1) for s_ in (-1, 1)]
+    scases = []
+    for f in forms:
+        for u in range(-2, 11):
+            for w in range(-2, 11):
+                inside = 1 <= u <= 7 and 1 <= w <= 7
+                if rng.random() < ((0.25 if inside else 0.04) if tier == "quick" else (1.0 if inside else 0.2)):
+                    scases.append({"id": len(scases) + 1, "form": list(f), "ctr": [u, w], "S": 8, "a": rng.choice([0.08, 0.02]), "R0": rng.uniform(0.5, 1.5),
+                                   "Z0": rng.uniform(-0.5, 0.5), "theta": rng.choice([0, 90, 180, 270, 30, 200]), "amp": rng.choice([1.0, 1e-3, 50.0]),
+                                   "atol_num": 1, "atol_den": 4})
+    # the alternating search proper: quadratics are solved in one pass (Saddle.tla, OnePassOnQuadratics), so a cubic perturbation that leaves
+    # the saddle where it is is added and a tight atol asked for: one to three passes, same outcome and answer
+    for A_ in (1, 2):
+        for B_ in (1, 2):
+            for C_ in (-1, 0, 1):
+                for s_ in (1, -1):
+                    for (u, w) in ([(3, 3), (4, 5), (5, 4)] if tier == "quick" else [(u, w) for u in (3, 4, 5) for w in (3, 4, 5)]):
+                        for eps in (0.05, 0.1):
+                            scases.append({"id": len(scases) + 1, "form": [A_, B_, C_, 1, s_], "ctr": [u, w], "S": 8, "a": rng.choice([0.08, 0.02]), "R0": rng.uniform(0.5, 1.5),
+                                           "Z0": rng.uniform(-0.5, 0.5), "theta": rng.choice([0, 90, 180, 270, 30, 200]), "amp": rng.choice([1.0, 1e-3, 50.0]),
+                                           "atol_num": 1, "atol_den": 1024, "cubic": eps})
+    srecs = run_driver("saddle_run.py", scases, d, "saddle", timeout=1800)
+    srecs.sort(key=lambda r: r["id"])
+    sfailed, sres = judge_saddle(srecs, d, "main")
+    v.add_tlc(sres)
+    v.add_traces(len(srecs))
+    soutc = {}
+    for r in srecs:
+        soutc[r["outcome"]] = soutc.get(r["outcome"], 0) + 1
+        v.add_eval(4)
+        for cl in sorted(sfailed.get(r["id"], ()) if r["outcome"] != "hang_skipped" else ()):
+            v.violation("C19 engine=saddle clause=%s kind=%s sign=%d theta=%d" % (cl, "saddle" if r["form"][3] == 1 else "opoint", r["form"][4], r["theta"]),
+                        "findSaddlePoint: clause %s fails for form %s centre %s (box coordinates, side 8) theta=%s: outcome=%s passes=%s answer=%s/1000" %
+                        (cl, r["form"], r["ctr"], r["theta"], r["outcome"], r["count"], r["res"]), {"case": r, "driver": "harness/drivers/saddle_run.py"})
+    passes = {}
+    for r in srecs:
+        if r["outcome"] == "ok":
+            passes[str(r["count"])] = passes.get(str(r["count"]), 0) + 1
+    v.note("saddle", {"calls": len(srecs), "outcomes": soutc, "passes_of_accepted_calls": passes})
+    if not any(int(k) >= 2 for k in passes):
+        v.fail_machinery("findSaddlePoint: no call needed a second pass: %s" % passes)
+    if min(soutc.get(k, 0) for k in ("ok", "solution_error", "value_error")) == 0:
+        v.fail_machinery("findSaddlePoint: an outcome class was never observed: %s" % soutc)
+    sclean = [r for r in srecs if r["id"] not in sfailed]
+    oks = [r for r in sclean if r["outcome"] == "ok" and r["cubicq"] == 0][0]
+    smuts = []
+    a = copy.deepcopy(oks); a["id"] = 1; a["res"][0] += 400; smuts.append((a, "AnswerIsSpec"))
+    b = copy.deepcopy(oks); b["id"] = 2; b["count"] = 3; smuts.append((b, "PassesAreSpec"))
+    c = copy.deepcopy([r for r in sclean if r["outcome"] == "value_error"][0]); c["id"] = 3; c["outcome"] = "ok"; smuts.append((c, "OutcomeIsSpec"))
+    smf, _ = judge_saddle([m for m, _ in smuts], d, "mut")
+    okm += sum(1 for m, cl in smuts if cl in smf.get(m["id"], ()))
+    v.note("binding_selftest_torpex_searches", {"mutants": len(muts) + len(smuts), "rejected_with_expected_clause": okm})
+    if okm != len(muts) + len(smuts):
+        v.fail_machinery("binding self-test (roots / saddle) failed: %s %s" % (mf, smf))
+    v.sample({"engine": "C->S roots", "case": {k: recs[0][k] for k in ("n", "maxI", "sg", "events")}})
+    v.sample({"engine": "C->S saddle", "case": {k: oks[k] for k in ("form", "ctr", "theta", "outcome", "count", "res")}})
+
+
 def run(tier, seed):
     v = Verdict("C19", tier, seed, "model_checking")
     v.rule = ("MC: Critical.tla - over every scan order with a duplicate detection, every set of flags (psi monotone from the axis, inside the wall, below psinorm_sol, "
@@ -126,7 +275,12 @@ def run(tier, seed):
               "a bump beyond psinorm_sol) shifted by sub-grid offsets, sampled at several resolutions and both signs, with psinorm_sol on either side of the second "
               "X-point; the truth (positions, Hessian sign, flags) comes from an independent Newton search on the analytic gradient; Trace_Critical.tla judges "
               "find_critical's lists (exactly once, kind, nothing spurious, gradient below tolerance, psi at the point, primary O-point, X order) and "
-              "TokamakEquilibrium's selection (regions built, X-points kept, which is primary, inner/outer legs by strike radius). A case is one flux function.")
+              "TokamakEquilibrium's selection (regions built, X-points kept, which is primary, inner/outer legs by strike radius). A case is one flux function. "
+              "Beyond the tokamak path: Saddle.tla (Equilibrium.findSaddlePoint, the TORPEX X-point search: edge classification, refusals, alternating bounded "
+              "searches in exact rational arithmetic on quadratic flux functions - found iff a saddle lies inside the box within the accepted tilt, never an O-point, "
+              "one pass on quadratics, answer within atol) and Roots.tla (Equilibrium.findRoots_1d, the bracketing search for the strike points: scans, doubling, "
+              "giving up, the refused lucky root, and the TypeError the code ends in when it finds more brackets than asked for); both bound to the real methods by "
+              "Trace_Saddle.tla / Trace_Roots.tla on boxes in any orientation, both signs, and on piecewise-linear functions with prescribed node signs.")
     v.assumptions = ["the property's premise (well separated, non-degenerate) is enforced by the driver: cases with critical points closer than 4 cells, a tiny Hessian "
                      "determinant, an X-point on the wall / at psinorm_sol / at the monotonicity threshold are recorded as skipped",
                      "positions are compared at 1/20 of a cell, psi at 2e-3 (2e-2 on grids coarser than 60) of the psi range"]
@@ -183,6 +337,7 @@ def run(tier, seed):
         v.note("binding_selftest", {"mutants": len(muts), "rejected_with_expected_clause": ok})
         if ok != len(muts):
             v.fail_machinery("binding self-test failed: %s" % mf)
+    torpex_searches(v, tier, seed, d)
     shutil.rmtree(d, ignore_errors=True)
     v.exhaustive = False
     return v
